@@ -23,6 +23,7 @@ EXPLANATION = (
     ' Round 4: swap symmetry is tested after single-definition locals are expanded; a vectorised marginal must group by the projected outcome, not by a numeric digest of it.'
     " Round 5: preprocess_distibution_dict returns a dictionary built there on every exit; both writers store the distribution's own dictionary; the projected key stays a tuple; one-entry keys are written with a separator."
     ' Round 6: the separator mark of one-entry outcomes is decided from the key being written (D5).'
+    ' Round 7: the element test of _is_non_negative is the bare comparison (D1).'
 )
 RULE_TEXT = "instances = constructor stores, validity conjuncts, (function, parameter) purity pairs, guards, record keys; non-trivial = an obligation was evaluated; distinct by (rule, construct)"
 ASSUMPTIONS = [
@@ -123,7 +124,7 @@ def check_constructor(ctx):
     # the non-negativity helper really compares every value with >= 0
     nn = repo.func(f"{MOD}:_is_non_negative")
     r = returned_exprs(nn.node)
-    ok_nn = len(r) == 1 and isinstance(r[0], ast.Call) and dotted(r[0].func) == "all" and any(isinstance(c, ast.Compare) and isinstance(c.ops[0], (ast.GtE,)) and norm(c.comparators[0]) == "0" for c in walk_local(r[0])) and ".values()" in norm(r[0])
+    ok_nn = len(r) == 1 and isinstance(r[0], ast.Call) and dotted(r[0].func) == "all" and any(isinstance(c, ast.Compare) and len(c.ops) == 1 and ((isinstance(c.ops[0], ast.GtE) and norm(c.comparators[0]) == "0") or (isinstance(c.ops[0], ast.LtE) and norm(c.left) == "0")) for c in walk_local(r[0])) and ".values()" in norm(r[0])
     if ok_nn and isinstance(r[0].args[0], (ast.GeneratorExp, ast.ListComp)):
         elt = r[0].args[0].elt
         # ... and nothing else: a disjunct (`or isclose(value, 0)`) lets slightly negative weights through, and nothing clips them later
